@@ -67,6 +67,15 @@ def prepare_files(wd):
     txt = open(f["gs"]).read()
     f["trunc_kth"] = w("trunc.kthlist", txt[: len(txt) * 2 // 3].rstrip("0 \n"))
     f["trunc_cnf"] = w("trunc.cnf", "p cnf 3 2\n1 -2 0\n2 3")
+    f["late_cnf"] = w("late.cnf", "c ok so far\np cnf 4 3\n1 -2 0\n2 3 -4 0\n-1 9 0\n")
+    f["late_word_cnf"] = w("lateword.cnf", "p cnf 4 3\n1 -2 0\n2 x -4 0\n-1 3 0\n")
+    f["fewer_cnf"] = w("fewer.cnf", "p cnf 4 3\n1 -2 0\n2 3 -4 0\n")
+    f["more_cnf"] = w("more.cnf", "p cnf 4 2\n1 -2 0\n2 3 -4 0\n-1 3 0\n")
+    f["second_cnf"] = w("second.cnf", "p cnf 4 3\n1 -2 0\n2 3 -4 0\np cnf 4 3\n-1 3 0\n")
+    f["late_kth"] = w("late.kthlist", "4\n1 : 0\n2 : 1 0\n3 : 1 7 0\n4 : 3 0\n")
+    f["fewer_kth"] = w("fewer.kthlist", "5\n1 : 0\n2 : 1 0\n3 : 2 0\n")
+    f["more_kth"] = w("more.kthlist", "2\n1 : 0\n2 : 1 0\n3 : 2 0\n")
+    f["second_kth"] = w("second.kthlist", "3\n1 : 0\n2 : 1 0\n3\n3 : 2 0\n")
     f["unknown_ext"] = w("graph.xyz", txt)
     f["blank_dimacs"] = w("blank.dimacs", "p edge 3 2\n\ne 1 2\ne 2 3\n")
     f["cyclic"] = w("cyclic.kthlist", "3\n1 : 0\n2 : 3 0\n3 : 2 0\n")
@@ -104,6 +113,10 @@ def file_tokens(kind, cls, f):
             "empty_file": [f["empty_cnf"] if cnf else f["empty_kth"]],
             "garbage_file": [f["garbage_cnf"] if cnf else f["garbage_kth"]],
             "truncated_file": [f["trunc_cnf"] if cnf else f["trunc_kth"]],
+            "late_bad_token": [f["late_cnf"] if cnf else f["late_kth"]],
+            "fewer_items_than_declared": [f["fewer_cnf"] if cnf else f["fewer_kth"]],
+            "more_items_than_declared": [f["more_cnf"] if cnf else f["more_kth"]],
+            "second_header_line": [f["second_cnf"] if cnf else f["second_kth"]],
             "cyclic_graph_file": [f["cyclic"]], "stdin_closed": ["-"]}[cls]
 
 
@@ -127,7 +140,7 @@ def concretise(v, f, wd):
             glob = ["-o", os.path.join(wd, "refused_%s_%s.%s" % (tool, abs(hash(tuple(v["valid"]))) % 10 ** 6, what))]
         else:
             glob = []
-        return glob + list(v["valid"]), fmt
+        return glob + [f["gd"] if t == "@gdfile" else t for t in v["valid"]], fmt
     fmt = default_fmt if v["fmt"] == "default" else v["fmt"]
     glob = [] if v["fmt"] == "default" or tool in ("cnfshuffle", "kthlist2pebbling") else ["--output-format", v["fmt"]]
     place = {"@gs": ["grid", "2", "2"], "@gseven": ["complete", "3"], "@gb": ["complete", "2", "3"],
